@@ -11,6 +11,7 @@ real objects by the harness (`np.shares_memory`); in the model every operation i
 so "functional forms do not modify their input" holds by construction and is not stated as a theorem.
 -/
 import IrisVerif.Lemmas.Series
+import IrisVerif.Model.SeriesHeap
 
 set_option linter.unusedSimpArgs false
 
@@ -577,6 +578,96 @@ theorem reachable_covers (ops : List Op) (n : Nat) (p' : Pool) (h : run (List.re
     rw [List.mem_replicate] at hy
     rw [hy.2]; exact inv_new _ _) h x hx
   exact ⟨fun t v => covers x t v, hi.2, hi.1⟩
+
+/-! ## 6b. Isolation on the heap model (`Model/SeriesHeap.lean`): no two pool objects ever share a data buffer -/
+
+/-- no two slots hold the same buffer class, and every class in use is older than the next fresh one -/
+def Owned (h : Heap) : Prop :=
+  (∀ (i j a : Nat), i ≠ j → h.arrs[i]? = some a → h.arrs[j]? ≠ some a) ∧ ∀ a ∈ h.arrs, a < h.next
+
+theorem heap_init_owned (n : Nat) : Owned (Heap.init n) := by
+  constructor
+  · intro i j a hij hi hj
+    simp only [Heap.init] at hi hj
+    by_cases c1 : i < n
+    · by_cases c2 : j < n
+      · rw [List.getElem?_range c1] at hi
+        rw [List.getElem?_range c2] at hj
+        cases hi; cases hj; exact hij rfl
+      · rw [List.getElem?_eq_none (by simp; omega)] at hj; cases hj
+    · rw [List.getElem?_eq_none (by simp; omega)] at hi; cases hi
+  · intro a ha
+    simp only [Heap.init, List.mem_range] at ha ⊢
+    exact ha
+
+/-- a functional form / `copy()` / `underlay` puts a buffer that no slot held before into its target slot and leaves every
+other slot alone; an in-place method or a read changes no slot's buffer class at all -/
+theorem heap_step_spec (h : Heap) (op : Op) (hO : Owned h) :
+    (∀ k, op.target = some (k, .fresh) → k < h.arrs.length →
+      (h.step op).arrs[k]? = some h.next ∧ h.next ∉ h.arrs ∧ ∀ j, j ≠ k → (h.step op).arrs[j]? = h.arrs[j]?) ∧
+    ((∀ k, op.target ≠ some (k, .fresh)) → h.step op = h) := by
+  constructor
+  · intro k hk hlt
+    simp only [Heap.step, hk, hlt, if_true]
+    refine ⟨by simp [List.getElem?_set, hlt], ?_, ?_⟩
+    · intro hm; have := hO.2 _ hm; omega
+    · intro j hj
+      rw [List.getElem?_set, if_neg (fun e => hj e.symm)]
+  · intro hn
+    unfold Heap.step
+    cases ht : op.target with
+    | none => rfl
+    | some p =>
+      obtain ⟨k, a⟩ := p
+      cases a with
+      | fresh => exact absurd ht (hn k)
+      | own => rfl
+
+theorem heap_step_owned (h : Heap) (op : Op) (hO : Owned h) : Owned (h.step op) := by
+  unfold Heap.step
+  cases ht : op.target with
+  | none => exact hO
+  | some p =>
+    obtain ⟨k, a⟩ := p
+    cases a with
+    | own => exact hO
+    | fresh =>
+      simp only
+      by_cases hlt : k < h.arrs.length
+      · rw [if_pos hlt]
+        constructor
+        · intro i j a hij hi hj
+          simp only [List.getElem?_set] at hi hj
+          by_cases c1 : k = i
+          · subst c1
+            simp only [hlt, if_true, Option.some.injEq] at hi
+            subst hi
+            rw [if_neg (fun e => hij e)] at hj
+            have := hO.2 _ (List.mem_of_getElem? (by simpa using hj))
+            omega
+          · rw [if_neg c1] at hi
+            by_cases c2 : k = j
+            · subst c2
+              simp only [hlt, if_true, Option.some.injEq] at hj
+              subst hj
+              have := hO.2 _ (List.mem_of_getElem? hi)
+              omega
+            · rw [if_neg c2] at hj
+              exact hO.1 i j a hij hi (by simpa using hj)
+        · intro a ha
+          rcases List.mem_or_eq_of_mem_set ha with h1 | h1
+          · have := hO.2 a h1; simp only; omega
+          · subst h1; simp only; omega
+      · rw [if_neg hlt]; exact hO
+
+/-- **Isolation over op sequences**: from a pool of distinct objects, after any sequence of operations no two pool objects
+share a data buffer (the model's counterpart of the `np.shares_memory` partition the harness observes after every op) -/
+theorem heap_reachable_owned (ops : List Op) : ∀ (h : Heap), Owned h → Owned (h.run ops) := by
+  induction ops with
+  | nil => intro h hO; exact hO
+  | cons op rest ih => intro h hO; exact ih _ (heap_step_owned h op hO)
+
+example : ((Heap.init 3).run [.copy 1 0, .underlay 1 0, .shift 0 (.by_ 1), .binop 2 .add 0 1]).classes = [0, 1, 2] := by decide
 
 /-! ## 7. The refinement statement in one place -/
 
